@@ -962,6 +962,10 @@ class reg(exp):
             r = cst(r.v, r.size)
             r.sf = self.sf
             return r
+        if r is self:
+            # an unmapped register evaluates to itself: hand out a copy, semantics
+            # functions adjust the sign flag of evaluated operands in place.
+            return _shallow_copy(r)
         # the register's view of signedness applies to the value read,
         # not to the expression stored in env (which may be shared):
         return _sf_view(r, self.sf)
